@@ -1,2 +1,116 @@
-(* C18 (theorems are added as their proofs are completed) *)
+(* C18  Simplification passes achieve their stated effect; pipelines equal sequencing.
+   Statements only; proofs live in Proofs/Pipeline.v, Proofs/EffectRR.v, Proofs/EffectMD.v,
+   Proofs/EffectMU.v, Proofs/EffectME.v (helpers: TraverseDet.v, RebuildFacts.v).
+
+   Vocabulary:
+     outs_ok c          every label in `outputs c` names a gate of c (a clause of WF; every pass establishes it)
+     reachable c l      l is reachable from `outputs c` along operand edges (zero or more)
+     transform_leaf t   the `_transform` of a leaf transformer;  apply_linear = left fold of transform_leaf
+     linearize          Transformer.linearize_transformers (implied post passes inserted, compositions flattened)
+     apply_transformers Transformer.apply_transformers (linearize, drop an idempotent pass equal to its
+                        predecessor, fold)  ;  transform t c = apply_transformers c [t]  ;  pipe a b = a | b *)
 Require Import Cirbo.Model.Base Cirbo.Model.Gate Cirbo.Model.Circuit Cirbo.Model.Passes Cirbo.Model.WF.
+Require Import Cirbo.Proofs.RebuildFacts Cirbo.Proofs.EffectRR Cirbo.Proofs.Pipeline Cirbo.Proofs.C18Examples.
+
+(* ================= A. pipeline algebra ================= *)
+(* dropping an idempotent pass that equals its predecessor never changes the result: applying a list
+   of transformers = applying the leaves of its linearisation one after another *)
+Theorem C18_apply_is_sequencing : forall c ts, outs_ok c ->
+  apply_transformers c ts = apply_linear (linearize ts) c.
+Proof. exact apply_transformers_linear. Qed.
+
+Theorem C18_sequencing_append : forall a b c,
+  apply_linear (a ++ b) c = (do c1 <- apply_linear a c; apply_linear b c1).
+Proof. exact apply_linear_app. Qed.
+
+(* nested compositions flatten, linearisation distributes over lists *)
+Theorem C18_linearize_flattens : forall ts rest,
+  linearize [TComp ts] = linearize ts /\ linearize (TComp ts :: rest) = linearize (ts ++ rest).
+Proof. intros ts rest. split; [exact (linearize_comp ts)|exact (linearize_comp_cons ts rest)]. Qed.
+
+Theorem C18_linearize_app : forall a b, linearize (a ++ b) = linearize a ++ linearize b.
+Proof. exact linearize_app. Qed.
+
+Theorem C18_composition_is_its_list : forall c ts,
+  apply_transformers c [TComp ts] = apply_transformers c ts.
+Proof. exact apply_transformers_comp. Qed.
+
+(* a list of passes = its elements one after another (each with its implied post passes) *)
+Theorem C18_list_is_sequencing : forall c t ts, outs_ok c ->
+  apply_transformers c (t :: ts) = (do c1 <- transform t c; apply_transformers c1 ts).
+Proof. exact apply_transformers_cons. Qed.
+
+Theorem C18_append_is_sequencing : forall c a b, outs_ok c ->
+  apply_transformers c (a ++ b) = (do c1 <- apply_transformers c a; apply_transformers c1 b).
+Proof. exact apply_transformers_app. Qed.
+
+(* the pipe operator *)
+Theorem C18_pipe_is_sequencing : forall c a b, outs_ok c ->
+  transform (pipe a b) c = (do c1 <- transform a c; transform b c1).
+Proof. exact apply_transformers_pipe. Qed.
+
+(* cleanup *)
+Theorem C18_cleanup_is_sequencing : forall c heavy, outs_ok c ->
+  cleanup c heavy =
+  (do c1 <- remove_redundant_gates false c;
+   do c2 <- merge_unary_operators c1;
+   do c3 <- remove_redundant_gates false c2;
+   do c4 <- merge_duplicate_gates c3;
+   do c5 <- remove_redundant_gates false c4;
+   if heavy then do c6 <- merge_equivalent_gates c5; remove_redundant_gates false c6 else Ok c5).
+Proof. exact cleanup_sequence. Qed.
+
+Theorem C18_cleanup_is_transforms : forall c heavy, outs_ok c ->
+  cleanup c heavy =
+  (do c1 <- transform (TRR false) c;
+   do c2 <- transform TMU c1;
+   do c3 <- transform TMD c2;
+   if heavy then transform TME c3 else Ok c3).
+Proof. exact cleanup_transforms. Qed.
+
+(* the hypothesis outs_ok (implied by WF) is preserved by every pipeline ... *)
+Theorem C18_outs_ok_of_WF : forall c, WF c -> outs_ok c.
+Proof. exact wf_outs. Qed.
+
+Theorem C18_pipeline_keeps_outs_ok : forall c ts c', outs_ok c -> apply_transformers c ts = Ok c' -> outs_ok c'.
+Proof. exact apply_transformers_outs_ok. Qed.
+
+(* ... and cannot be dropped: on the ill-formed state {inputs a b, output b, no gates} the reduced
+   pipeline [RR; RR] (RR applied once) and RR applied twice differ in the order of the gate map *)
+Example C18_sequencing_needs_outs_ok :
+  apply_transformers c18_bad [TRR false; TRR false] <> apply_linear (linearize [TRR false; TRR false]) c18_bad.
+Proof. exact c18_bad_differs. Qed.
+
+(* ================= B. RemoveRedundantGates ================= *)
+(* B.1 exactly the reachable gates, unchanged, plus (unless removal is allowed) the other inputs *)
+Theorem C18_rr_effect : forall allow c c', WF c -> remove_redundant_gates allow c = Ok c' ->
+  NoDup (dkeys (gates c')) /\
+  (forall l g, dget (gates c') l = Some g <->
+     (reachable c l /\ dget (gates c) l = Some g) \/
+     (allow = false /\ ~ reachable c l /\ In l (inputs c) /\ g = mkGate INPUT [])) /\
+  outputs c' = outputs c /\
+  inputs c' = filter (fun i => has_gate c' i) (inputs c) /\
+  (allow = false -> inputs c' = inputs c).
+Proof. exact rr_effect. Qed.
+
+(* B.2 applying it twice equals applying it once, as complete states (gate-map order, users index,
+   inputs, outputs, blocks) *)
+Theorem C18_rr_idempotent : forall allow c c', outs_ok c ->
+  remove_redundant_gates allow c = Ok c' -> remove_redundant_gates allow c' = Ok c'.
+Proof. exact rr_idempotent. Qed.
+
+(* B.3 it never fails on a well-formed circuit *)
+Theorem C18_rr_total : forall allow c, WF c -> exists c', remove_redundant_gates allow c = Ok c'.
+Proof. exact rr_total. Qed.
+
+(* non-vacuity: c18_ex = inputs a b d; g = AND(a,b); g2 = AND(b,a); n1 = NOT(g); n2 = NOT(n1);
+   h = OR(n2,g2) (output); k = NOT(a) (dead); input d unused *)
+Example C18_example_wf : WF c18_ex.
+Proof. exact c18_ex_wf. Qed.
+
+Example C18_example_rr :
+  option_map (fun c => dkeys (gates c)) (res_to_option (remove_redundant_gates false c18_ex))
+    = Some ["a"; "b"; "g2"; "g"; "n1"; "n2"; "h"; "d"] /\
+  option_map (fun c => dkeys (gates c)) (res_to_option (remove_redundant_gates true c18_ex))
+    = Some ["a"; "b"; "g2"; "g"; "n1"; "n2"; "h"].
+Proof. exact c18_ex_rr. Qed.
